@@ -1,8 +1,9 @@
 """C20 - contracts for aw_core/config.py.
 
 _merge is proved at one nesting level (no key holds a table on both sides, so the recursive branch is dead - that
-is itself an obligation); nested documents (tables up to three deep) are covered by the run-time contract against
-an executable reference merge (bounded).  The comparison `a[key] == b[key]` is Python's ==, modelled as an
+is itself an obligation) and at two (tables of plain values on both sides: the variant `:d1`, which descends once into
+the flat case); deeper documents (tables up to three deep) are covered by the run-time contract against an executable
+reference merge (bounded).  The comparison `a[key] == b[key]` is Python's ==, modelled as an
 uninterpreted relation: 1 == 1.0 == True in Python while TOML integer, float and boolean are different values."""
 from pyvc.specrt import *  # noqa: F401,F403
 from pyvc.api import contract, spec
@@ -11,6 +12,17 @@ from pyvc.api import contract, spec
 @spec
 def is_tab(v):
     return isinstance(v, dict)
+
+
+@spec
+def both_tab(a, b, k):
+    return k in a and k in b and is_tab(a[k]) and is_tab(b[k])
+
+
+@spec
+def flat_pair(x, y):
+    """no key holds a table on both sides"""
+    return all(k not in x or not (is_tab(x[k]) and is_tab(y[k])) for k in y)
 
 
 contract(
@@ -42,6 +54,57 @@ contract(
         "all(key_index(b, k) < kidx or ((k in a) == (k in old(a)) and (k not in a or same_value(a[k], old(a)[k]))) for k in b)",
         # keys of b already handled
         "all(key_index(b, k) >= kidx or (k in a and same_value(a[k], b[k])) for k in b)",
+    ])},
+)
+
+
+# ---- _merge, two nesting levels: tables of plain values (the shape of every configuration aw-core ships: [section] key = value) ------
+# Proved by descending once: the recursive call is met with the contract of the flat case above (its precondition is this one's
+# requirement that the two tables under a common key are flat with respect to each other); under that contract the function is
+# proved not to recurse (`recursion-unreachable`), so the descent ends there.
+# Deeper nesting stays with the run-time contract (bounded).
+contract(
+    "aw_core.config._merge:d1",
+    params={"a": "Dict[str,JV]", "b": "Dict[str,JV]", "path": "Optional[List[str]]"},
+    returns="Dict[str,JV]",
+    descends_to="aw_core.config._merge",
+    requires=["a is not b",
+              # a TOML document is a tree: the tables the two documents hold are objects of their own, pairwise distinct
+              "all(not is_tab(b[k]) or (jv_dict(b[k]) is not a and jv_dict(b[k]) is not b) for k in b)",
+              "all(not is_tab(a[k]) or (jv_dict(a[k]) is not a and jv_dict(a[k]) is not b) for k in a)",
+              "all(not (is_tab(b[k]) and is_tab(a[k2])) or jv_dict(b[k]) is not jv_dict(a[k2]) for k in b for k2 in a)",
+              "all(k == k2 or not (is_tab(a[k]) and is_tab(a[k2])) or jv_dict(a[k]) is not jv_dict(a[k2]) for k in a for k2 in a)",
+              # two nesting levels: where both sides hold a table, those two tables are flat with respect to each other,
+              # and they are objects of their own (a TOML document is a tree)
+              "all(not both_tab(a, b, k) or (flat_pair(jv_dict(a[k]), jv_dict(b[k])) and jv_dict(a[k]) is not jv_dict(b[k])"
+              "    and jv_dict(a[k]) is not a and jv_dict(a[k]) is not b and jv_dict(b[k]) is not a and jv_dict(b[k]) is not b) for k in b)",
+              "all(not (both_tab(a, b, k) and both_tab(a, b, k2)) or k == k2 or (jv_dict(a[k]) is not jv_dict(a[k2]) and jv_dict(a[k]) is not jv_dict(b[k2]))"
+              "    for k in b for k2 in b)"],
+    ensures=[
+        "result is a",
+        "all(k in a for k in b) and all(k in a for k in old(a)) and all(k in old(a) or k in b for k in a)",
+        "all(k in b or same_value(a[k], old(a)[k]) for k in old(a))",
+        "all(k in old(a) or same_value(a[k], b[k]) for k in b)",
+        # a key both have, not both tables: the user's value
+        "all(k not in old(a) or old(both_tab(a, b, k)) or same_value(a[k], b[k]) for k in b)",
+        # a key both have as tables: the default's table object, merged one level down
+        "all(not old(both_tab(a, b, k)) or (same_value(a[k], old(a)[k])"
+        "    and all(k2 in jv_dict(a[k]) and same_value(jv_dict(a[k])[k2], jv_dict(b[k])[k2]) for k2 in jv_dict(b[k]))) for k in b)",
+        "b == old(b)",
+    ],
+    modifies=["a", "alloc", "Dict.map"], writes_fresh=["List.len", "List.items"], raises=[],
+    loops={0: dict(index="kidx", invariant=[
+        "b == old(b)",
+        "all(not is_tab(b[k]) or jv_dict(b[k]) == old(jv_dict(b[k])) for k in b)",
+        "all(k in a for k in old(a)) and all(k in old(a) or k in b for k in a)",
+        "all(k in b or same_value(a[k], old(a)[k]) for k in old(a))",
+        # keys of b not reached yet: a is as it was there, and so is the table it may hold there
+        "all(key_index(b, k) < kidx or ((k in a) == (k in old(a)) and (k not in a or same_value(a[k], old(a)[k]))) for k in b)",
+        "all(key_index(b, k) < kidx or not old(both_tab(a, b, k)) or jv_dict(a[k]) == old(jv_dict(a[k])) for k in b)",
+        # keys of b already handled
+        "all(key_index(b, k) >= kidx or old(both_tab(a, b, k)) or (k in a and same_value(a[k], b[k])) for k in b)",
+        "all(key_index(b, k) >= kidx or not old(both_tab(a, b, k)) or (k in a and same_value(a[k], old(a)[k])"
+        "    and all(k2 in jv_dict(a[k]) and same_value(jv_dict(a[k])[k2], jv_dict(b[k])[k2]) for k2 in jv_dict(b[k]))) for k in b)",
     ])},
 )
 
